@@ -68,6 +68,8 @@ impl<'de> Multipart<'de> {
 
         /* including leading `--` */
         let boundary = r.read_until(CRLF);
+        /* a part ends with CRLF followed by the boundary: the boundary text alone can appear in a content */
+        let delimiter = [CRLF, boundary].concat();
 
         let mut parts = Vec::new();
         while let Some(i) = r.consume_oneof(["\r\n", "--"]) {
@@ -101,18 +103,8 @@ impl<'de> Multipart<'de> {
                     }
 
                     let content = {
-                        let before_boundary = r.read_until(boundary);
-                        let before_boundary_len = before_boundary.len();
-                        let Some((content, CRLF)) = (before_boundary_len >= CRLF.len()).then_some(unsafe {
-                            use std::slice::from_raw_parts;
-
-                            let ptr = before_boundary.as_ptr();
-                            let mid = before_boundary_len - CRLF.len();
-                            (from_raw_parts(ptr, mid), from_raw_parts(ptr.add(mid), CRLF.len()))
-                        }) else {return Err((|| Error::MissingCRLF())())};
-
-                        r.consume(boundary).ok_or_else(Error::ExpectedBoundary)?;
-
+                        let content = r.read_until(&delimiter);
+                        r.consume(&delimiter).ok_or_else(Error::MissingCRLF)?;
                         content
                     };
 
